@@ -23,10 +23,11 @@ const ModPath = "github.com/corazawaf/coraza/v3"
 
 // Config is one build configuration of the target.
 type Config struct {
-	Name   string
-	Tags   []string
-	GOOS   string
-	GOARCH string
+	Name     string
+	Tags     []string
+	GOOS     string
+	GOARCH   string
+	symsOnly bool // stop after type checking (LoadSyms)
 }
 
 // Prog is the loaded, type-checked target with SSA.
@@ -46,10 +47,17 @@ type Prog struct {
 	sites    map[*ssa.Function][]ssa.CallInstruction
 	made     map[string]bool
 	live     map[*ssa.Function]map[*ssa.BasicBlock]bool
+	// Renames: symbols analysed under their baseline name (rename.go).
+	Renames    []Rename
+	RenameNote string
 }
 
-// Load loads every package of the module in dir under cfg and builds SSA.
-func Load(dir string, cfg Config) (*Prog, error) {
+// Load loads every package of the module in dir under cfg and builds SSA.  Symbols that
+// were renamed with respect to the committed baseline are analysed under their baseline
+// names (rename.go); Prog.Renames lists them.
+func Load(dir string, cfg Config) (*Prog, error) { return load(dir, cfg, nil) }
+
+func load(dir string, cfg Config, overlay map[string][]byte) (*Prog, error) {
 	env := os.Environ()
 	filtered := env[:0:0]
 	for _, e := range env {
@@ -67,10 +75,11 @@ func Load(dir string, cfg Config) (*Prog, error) {
 		filtered = append(filtered, "GOARCH="+cfg.GOARCH)
 	}
 	pc := &packages.Config{
-		Mode:  packages.LoadAllSyntax,
-		Dir:   dir,
-		Env:   filtered,
-		Tests: false,
+		Mode:    packages.LoadAllSyntax,
+		Dir:     dir,
+		Env:     filtered,
+		Tests:   false,
+		Overlay: overlay,
 	}
 	if len(cfg.Tags) > 0 {
 		pc.BuildFlags = []string{"-tags=" + strings.Join(cfg.Tags, ",")}
@@ -103,6 +112,23 @@ func Load(dir string, cfg Config) (*Prog, error) {
 	sort.Slice(p.Pkgs, func(i, j int) bool { return p.Pkgs[i].PkgPath < p.Pkgs[j].PkgPath })
 	if len(p.Pkgs) < 25 {
 		return nil, fmt.Errorf("only %d module packages loaded (config %s); expected >= 25", len(p.Pkgs), cfg.Name)
+	}
+	if cfg.symsOnly {
+		return p, nil
+	}
+	if overlay == nil && os.Getenv("CZ_NO_RENAME") == "" {
+		if base, err := baselineFor(cfg.Name); err == nil && base != nil {
+			if ren, list := detectRenames(base, collectSymbols(p.Pkgs)); len(ren) > 0 {
+				if ov, err := renameOverlay(p.Pkgs, ren); err == nil && len(ov) > 0 {
+					if p2, err := load(dir, cfg, ov); err == nil {
+						p2.Renames = list
+						return p2, nil
+					} else {
+						p.RenameNote = "renamed symbols were detected but the respelled program does not load (" + err.Error() + "); analysed as written"
+					}
+				}
+			}
+		}
 	}
 	p.Fset = initial[0].Fset
 	prog, _ := ssautil.AllPackages(initial, ssa.InstantiateGenerics)
@@ -139,6 +165,16 @@ func Load(dir string, cfg Config) (*Prog, error) {
 		}
 	}
 	return p, nil
+}
+
+// LoadSyms type-checks the module under cfg and lists its symbols (no SSA, no rename detection).
+func LoadSyms(dir string, cfg Config) ([]Sym, error) {
+	cfg.symsOnly = true
+	p, err := load(dir, cfg, nil)
+	if err != nil {
+		return nil, err
+	}
+	return p.CollectSyms(), nil
 }
 
 // InModule reports whether fn's source belongs to the target module.
